@@ -23,7 +23,8 @@ SECTIONS_OFFSET = 96        # offsetof (Header, sections)
 def setup_subject():
     if _st:
         return _st
-    st = c06.setup_subject()
+    from . import c09
+    st = c09.setup_subject()          # also provides typelibs of the stub GLib/GObject/Gio namespaces (depdir)
     info = st['info']
     drv = os.path.join(info['outdir'], 'gi-lookup')
     ok, err = cbuild.compile_driver(info, os.path.join(core.VERIF, 'vt', 'cdrv', 'gi-lookup.c'), drv)
@@ -197,9 +198,17 @@ def esc(s):
     return s.replace('&', '&amp;').replace('<', '&lt;').replace('"', '&quot;').replace('>', '&gt;')
 
 
-def gen_gir(rng, names, prefixes):
+FOREIGN = ['Object', 'ParamSpec', 'InitiallyUnowned', 'Closure', 'Value']       # names of the stub GObject namespace
+
+
+def gen_gir(rng, names, prefixes, foreign=()):
     """entries of mixed kinds; -> (gir text, model list of dicts in document order)"""
-    L = [GIR_HEAD, '<namespace name="Lk" version="1.0" c:identifier-prefixes="%s" c:symbol-prefixes="lk">' % prefixes]
+    L = [GIR_HEAD] + (['<include name="GObject" version="2.0"/>'] if foreign else []) + \
+        ['<namespace name="Lk" version="1.0" c:identifier-prefixes="%s" c:symbol-prefixes="lk">' % prefixes]
+    for k, fn in enumerate(foreign):
+        # references to another namespace become non-local directory entries (bare name, after the local ones)
+        L.append('<function name="uses_foreign_%d" c:identifier="lk_uses_foreign_%d"><return-value transfer-ownership="none"><type name="none" c:type="void"/></return-value>'
+                 '<parameters><parameter name="o" transfer-ownership="none"><type name="GObject.%s" c:type="G%s*"/></parameter></parameters></function>' % (k, k, fn, fn))
     model = []
     used_gt, used_dom = set(), set()
     pfx = [p for p in prefixes.split(',') if p] or ['Lk']
@@ -270,7 +279,11 @@ def typelib_case(case):
     viol, hits = res['viol'], res['hits']
     names = gen_names(rng, n, style, entry_safe=True)       # gitypelib.c validate_name: [A-Za-z0-9_-], at most 2047 bytes
     prefixes = rng.choice(['Lk', 'Lk', 'Lk,L', 'Lkx,Lk', 'Gdk,G', 'Lk,Other', 'Longprefix,Lk,L'])
-    gir, model = gen_gir(rng, names, prefixes)
+    foreign = [f for f in rng.sample(FOREIGN, rng.choice([0, 1, 2, 4])) if f not in names]
+    names = ['uses_foreign_%d' % k for k in range(len(foreign))] + names if foreign else names
+    gir, model = gen_gir(rng, names[len(foreign):] if foreign else names, prefixes, foreign)
+    model = [{'name': 'uses_foreign_%d' % k, 'gtype': None, 'domain': None, 'kind': 'function'} for k in range(len(foreign))] + model
+    n = len(names)
     replay = {'n': n, 'style': style, 'prefixes': prefixes, 'gir_head': gir[:6000]}
     d = tempfile.mkdtemp(dir=tmpdir)
     try:
@@ -281,7 +294,11 @@ def typelib_case(case):
         os.makedirs(d1)
         os.makedirs(d2)
         tpath = os.path.join(d1, 'Lk-1.0.typelib')
-        rc, so, se = csan.compile_gir(info, gpath, tpath, [], timeout=900)
+        for dd in (d1, d2):
+            for fn in os.listdir(st['depdir']):
+                if fn.endswith('.typelib') and not fn.startswith('Dep-'):
+                    os.symlink(os.path.join(st['depdir'], fn), os.path.join(dd, fn))
+        rc, so, se = csan.compile_gir(info, gpath, tpath, [st['scan'].stub_dir()] if foreign else [], timeout=900)
         for sig, text in csan.sanitizer_reports(se):
             viol.append((sig, 'sanitizer report while compiling %d entries: %s' % (n, text[:600]), replay))
         if rc != 0 or not os.path.exists(tpath):
@@ -310,6 +327,9 @@ def typelib_case(case):
         # probes
         members = names if n <= 3000 else rng.sample(names, 3000)
         P = [('N', x) for x in members] + [('N', x) for x in absent_probes(rng, names, min(1500, max(30, n // 2)))]
+        # the bare names of entries that only refer to other namespaces are not entries of this namespace
+        P += [('N', x) for x in foreign] + [('N', x) for x in FOREIGN if x not in names and x not in foreign][:2]
+        hits['foreign_name_probes'] += len(foreign)
         gts = list(by_gtype)
         P += [('G', x) for x in (gts if len(gts) <= 300 else rng.sample(gts, 300))]
         gabs = []
